@@ -45,6 +45,8 @@ type Solver struct {
 	Stats     Stats
 	LogDir    string // when set, every query is written there
 	LastQuery string
+	Incremental bool
+	inc       *incState
 }
 
 type Stats struct {
@@ -56,7 +58,7 @@ type Stats struct {
 }
 
 func NewSolver(timeoutMs int) *Solver {
-	s := &Solver{TimeoutMs: timeoutMs}
+	s := &Solver{TimeoutMs: timeoutMs, Incremental: os.Getenv("SYMX_NO_INC") == ""}
 	s.Stats.BySolver = map[string]int{}
 	s.procs = []*proc{
 		{name: "z3-4.8.12", argv: []string{"z3", "-in"}},
@@ -113,6 +115,7 @@ func (p *proc) stop() {
 }
 
 func (s *Solver) Close() {
+	s.incReset()
 	for _, p := range s.procs {
 		p.stop()
 	}
@@ -294,6 +297,17 @@ func (s *Solver) Check(asserts []*Term, wantModel bool) (Result, *Model) {
 		}
 	}()
 	s.Stats.Queries++
+	if s.Incremental {
+		if r, m, ok := s.checkInc(as, wantModel); ok {
+			s.Stats.BySolver[s.procs[0].name+"(inc)"]++
+			if r == Unsat {
+				s.Stats.Unsat++
+			} else {
+				s.Stats.Sat++
+			}
+			return r, m
+		}
+	}
 	script, vars := Script(as, s.TimeoutMs, wantModel)
 	s.LastQuery = script
 	if s.LogDir != "" {
@@ -642,4 +656,167 @@ func Vars(ts ...*Term) []*Term {
 	}
 	sort.Slice(out, func(i, j int) bool { return out[i].Name < out[j].Name })
 	return out
+}
+
+// ---- incremental mode ------------------------------------------------------
+//
+// The path condition of the machine only grows along a path and consecutive
+// queries share long prefixes, so the primary solver keeps an assertion stack
+// (one push level per asserted term); a query pops to the longest common prefix,
+// pushes the rest and checks.  Any irregularity (unknown, error line, I/O
+// failure) makes the caller fall back to the one-shot portfolio.
+
+type incLevel struct {
+	term    *Term
+	defined []int
+	vars    []string
+}
+
+type incState struct {
+	p       *proc
+	levels  []incLevel
+	named   map[int]string
+	declared map[string]*Term
+	ufs     map[string]bool
+	varList []*Term
+}
+
+func (s *Solver) incReset() {
+	if s.inc != nil && s.inc.p != nil {
+		s.inc.p.stop()
+	}
+	s.inc = nil
+}
+
+func (s *Solver) checkInc(as []*Term, wantModel bool) (Result, *Model, bool) {
+	if s.inc == nil {
+		p := &proc{name: s.procs[0].name, argv: s.procs[0].argv}
+		s.inc = &incState{p: p, named: map[int]string{}, declared: map[string]*Term{}, ufs: map[string]bool{}}
+		if _, err := p.run(fmt.Sprintf("(set-option :produce-models true)\n(set-option :timeout %d)", s.TimeoutMs), 10*time.Second); err != nil {
+			s.inc = nil
+			return Unknown, nil, false
+		}
+	}
+	st := s.inc
+	// longest common prefix
+	k := 0
+	for k < len(st.levels) && k < len(as) && st.levels[k].term == as[k] {
+		k++
+	}
+	var sb strings.Builder
+	if n := len(st.levels) - k; n > 0 {
+		fmt.Fprintf(&sb, "(pop %d)\n", n)
+		for _, lv := range st.levels[k:] {
+			for _, id := range lv.defined {
+				delete(st.named, id)
+			}
+			for _, v := range lv.vars {
+				delete(st.declared, v)
+				delete(st.ufs, v)
+			}
+		}
+		st.levels = st.levels[:k]
+	}
+	for _, a := range as[k:] {
+		sb.WriteString("(push 1)\n")
+		lv := incLevel{term: a}
+		st.emit(&sb, a, &lv)
+		sb.WriteString("(assert ")
+		a.write(&sb, st.named, 0)
+		sb.WriteString(")\n")
+		st.levels = append(st.levels, lv)
+	}
+	sb.WriteString("(check-sat)\n")
+	lines, err := st.p.run(sb.String(), time.Duration(s.TimeoutMs)*time.Millisecond+10*time.Second)
+	if err != nil {
+		s.incReset()
+		return Unknown, nil, false
+	}
+	res := Unknown
+	for _, l := range lines {
+		switch {
+		case l == "sat":
+			res = Sat
+		case l == "unsat":
+			res = Unsat
+		case strings.HasPrefix(l, "(error"):
+			if os.Getenv("SYMX_DEBUG") != "" {
+				fmt.Fprintf(os.Stderr, "inc solver: %s\n", l)
+			}
+			s.incReset()
+			return Unknown, nil, false
+		}
+	}
+	if res == Unknown {
+		// leave the stack as is; the portfolio decides this query
+		return Unknown, nil, false
+	}
+	if res == Unsat {
+		return Unsat, nil, true
+	}
+	var m *Model
+	if wantModel {
+		var vs []string
+		for n := range st.declared {
+			if !st.ufs[n] {
+				vs = append(vs, quoteSym(n))
+			}
+		}
+		if len(vs) == 0 {
+			return Sat, &Model{V: map[string]uint64{}, Raw: map[string]string{}}, true
+		}
+		sort.Strings(vs)
+		lines, err := st.p.run("(get-value ("+strings.Join(vs, " ")+"))", 20*time.Second)
+		if err != nil {
+			s.incReset()
+			return Unknown, nil, false
+		}
+		for _, l := range lines {
+			if strings.HasPrefix(l, "(error") {
+				s.incReset()
+				return Unknown, nil, false
+			}
+		}
+		m = parseModel(strings.Join(lines, " "))
+	}
+	return Sat, m, true
+}
+
+// emit declares/defines everything t needs that is not yet in scope.
+func (st *incState) emit(sb *strings.Builder, t *Term, lv *incLevel) {
+	if _, ok := st.named[t.ID]; ok {
+		return
+	}
+	for _, a := range t.Args {
+		st.emit(sb, a, lv)
+	}
+	switch {
+	case t.Op == OVar:
+		if _, ok := st.declared[t.Name]; !ok {
+			fmt.Fprintf(sb, "(declare-fun %s () %s)\n", quoteSym(t.Name), sortOf(t))
+			st.declared[t.Name] = t
+			lv.vars = append(lv.vars, t.Name)
+		}
+		return
+	case t.Op == OUF:
+		if _, ok := st.declared[t.Name]; !ok {
+			var as []string
+			for _, a := range t.Args {
+				as = append(as, sortOf(a))
+			}
+			fmt.Fprintf(sb, "(declare-fun %s (%s) %s)\n", quoteSym(t.Name), strings.Join(as, " "), sortOf(t))
+			st.declared[t.Name] = t
+			st.ufs[t.Name] = true
+			lv.vars = append(lv.vars, t.Name)
+		}
+	}
+	if len(t.Args) == 0 {
+		return
+	}
+	name := fmt.Sprintf("t!%d", t.ID)
+	fmt.Fprintf(sb, "(define-fun %s () %s ", name, sortOf(t))
+	t.write(sb, st.named, 0)
+	sb.WriteString(")\n")
+	st.named[t.ID] = name
+	lv.defined = append(lv.defined, t.ID)
 }
